@@ -122,6 +122,89 @@ def compare_op(fn, left_word, right_word, what):
     raise ExtractError(f"comparison not found: {what}")
 
 
+def float_const_eval(node):
+    """value of a constant float expression built from numeric literals, + - * / **, unary minus and
+    math.log / math.log2 / math.exp / math.pow / math.sqrt of such expressions (evaluated with the same
+    libm CPython uses).  Raises ExtractError for anything else."""
+    import math as _math
+
+    if isinstance(node, ast.Constant) and isinstance(node.value, (int, float)) and not isinstance(node.value, bool):
+        return float(node.value)
+    if isinstance(node, ast.UnaryOp) and isinstance(node.op, ast.USub):
+        return -float_const_eval(node.operand)
+    if isinstance(node, ast.BinOp):
+        a, b = float_const_eval(node.left), float_const_eval(node.right)
+        try:
+            if isinstance(node.op, ast.Add):
+                return a + b
+            if isinstance(node.op, ast.Sub):
+                return a - b
+            if isinstance(node.op, ast.Mult):
+                return a * b
+            if isinstance(node.op, ast.Div):
+                return a / b
+            if isinstance(node.op, ast.Pow):
+                return a**b
+        except (ArithmeticError, ValueError) as exc:
+            raise ExtractError(f"constant expression does not evaluate: {exc}")
+    if isinstance(node, ast.Call) and isinstance(node.func, ast.Attribute) and isinstance(node.func.value, ast.Name) and node.func.value.id == "math":
+        fn = {"log": _math.log, "log2": _math.log2, "exp": _math.exp, "pow": _math.pow, "sqrt": _math.sqrt}.get(node.func.attr)
+        if fn is not None and not node.keywords:
+            try:
+                return float(fn(*[float_const_eval(a) for a in node.args]))
+            except (ArithmeticError, ValueError, TypeError) as exc:
+                raise ExtractError(f"constant expression does not evaluate: {exc}")
+    raise ExtractError(f"not a constant float expression: {ast.dump(node)[:80]}")
+
+
+def _assigned_value(fn, target):
+    """value node of the (single) assignment `target = …` / `self.<target> = …` in fn"""
+    found = []
+    for node in ast.walk(fn):
+        if isinstance(node, ast.Assign) and len(node.targets) == 1:
+            t = node.targets[0]
+            if (isinstance(t, ast.Name) and t.id == target) or (isinstance(t, ast.Attribute) and t.attr.endswith(target)):
+                found.append((node.lineno, node.value))
+    if len(found) != 1:
+        raise ExtractError(f"expected exactly one assignment to {target}, found {len(found)}")
+    return found[0][1]
+
+
+def _strip_calls(node, names):
+    """peel int(...), round(...), math.ceil(...) wrappers"""
+    while isinstance(node, ast.Call) and len(node.args) == 1:
+        f = node.func
+        nm = f.id if isinstance(f, ast.Name) else (f.attr if isinstance(f, ast.Attribute) else None)
+        if nm in names:
+            node = node.args[0]
+        else:
+            break
+    return node
+
+
+def bloom_sizing_constants(fn):
+    """(divisor of the bit-count formula, multiplier of the hash-count formula) as doubles:
+    m_bt = ceil(<numerator> / DIV);  number_hashes = int(round(MUL * m_bt / n))"""
+    bits = _strip_calls(_assigned_value(fn, "m_bt"), {"ceil", "int"})
+    if not (isinstance(bits, ast.BinOp) and isinstance(bits.op, ast.Div)):
+        raise ExtractError("m_bt is not ceil(<numerator> / <constant>)")
+    div = float_const_eval(bits.right)
+    hashes = _strip_calls(_assigned_value(fn, "number_hashes"), {"int", "round"})
+    # MUL * m_bt / n   parses as   (MUL * m_bt) / n
+    if not (isinstance(hashes, ast.BinOp) and isinstance(hashes.op, ast.Div) and isinstance(hashes.left, ast.BinOp) and isinstance(hashes.left.op, ast.Mult)):
+        raise ExtractError("number_hashes is not int(round(<constant> * m_bt / n))")
+    mul = float_const_eval(hashes.left.left)
+    return div, mul
+
+
+def cms_depth_constant(fn):
+    """depth = ceil(numerator / C)"""
+    depth = _strip_calls(_assigned_value(fn, "__depth"), {"ceil", "int"})
+    if not (isinstance(depth, ast.BinOp) and isinstance(depth.op, ast.Div)):
+        raise ExtractError("depth is not ceil(<numerator> / <constant>)")
+    return float_const_eval(depth.right)
+
+
 def float_literals(fn):
     out = []
     for node in ast.walk(fn):
@@ -304,6 +387,11 @@ def _extract_into(repo, facts, attempt):
 
     # float literals of the sizing formulas
     def bloom_floats():
+        try:
+            div, mul = bloom_sizing_constants(_find_def(bloom, "BloomFilter", "_get_optimized_params"))
+            return [("Float", div), ("Float", mul)]
+        except ExtractError:
+            pass  # formula restructured: fall back to the two literals
         fl = float_literals(_find_def(bloom, "BloomFilter", "_get_optimized_params"))
         # expected: 0.0, 1.0 of the range test, then ln(2)^2 and ln(2)
         fl = [v for v in fl if v not in (0.0, 1.0)]
@@ -314,6 +402,10 @@ def _extract_into(repo, facts, attempt):
     attempt(["bloomLn2Sq", "bloomLn2"], bloom_floats)
 
     def cms_float():
+        try:
+            return ("Float", cms_depth_constant(_find_def(cms, "CountMinSketch", "__init__")))
+        except ExtractError:
+            pass
         fl = [v for v in float_literals(_find_def(cms, "CountMinSketch", "__init__")) if v != 0.0]
         if len(fl) != 1:
             raise ExtractError(f"CountMinSketch.__init__ float literals: {fl}")
